@@ -7,6 +7,8 @@ package main
 // must be equal.
 
 import (
+	"github.com/Factom-Asset-Tokens/factom"
+	"github.com/pegnet/pegnetd/node"
 	"fmt"
 	"math/rand"
 
@@ -231,7 +233,109 @@ func scenRestart(rep *Report, tier string, seed int64) {
 			rep.Sample(map[string]interface{}{"restart_after": keys(at), "ungraded": keys(gaps), "chain_length": length})
 		}
 	}
+	eraRestarts(rep, tier, seed)
 	rep.Rule = "one evaluation = the whole chain synced by the real daemon with clean restarts (fresh NewPegnetd on the same file) after a set of heights, in lock-step with the model, final ledger compared with the continuous run; distinct = distinct restart sets"
 }
 
 func init() { scenarios["restart"] = scenRestart }
+
+// eraRestarts: restart independence across the rule changes. An era-crossing chain (all entry
+// kinds, transfers to the special addresses before and after their activations; PIP-10 out of
+// reach so that the averaging cache plays no part) is synced continuously and with restarts
+// placed right before the activation heights; anything a running daemon carries in memory from
+// one era into the next shows as a different ledger.
+func eraRestarts(rep *Report, tier string, seed int64) {
+	g := NewGen(seed+77, 5, 2)
+	a := ledgerActs(g.R, int(seed))
+	a.PIP10 = 100000
+	s := Setup{Acts: a, AvgPeriod: 8, SyncVersion: mainnetSyncVersion}
+	last := a.V204Burn + 4
+	run, err := NewRun(s)
+	if err != nil {
+		rep.Note("infrastructure: %v", err)
+		return
+	}
+	run.FullEvery = 1000
+	w := &World{G: g, Run: run, S: s, Rep: rep}
+	oldBurn, _ := factomFA(node.GlobalOldBurnAddress)
+	newBurn, _ := factomFA(node.GlobalBurnAddress)
+	mintA, _ := factomFA(node.GlobalMintAddress)
+	var final []string
+	okRef := true
+	for h := a.Pegnet + 1; h <= last; h++ {
+		b := w.BuildBlock(h)
+		if h > a.TxConv+3 && h%3 == 0 {
+			u := g.Users[int(h/3)%len(g.Users)]
+			if !(u.IsE && h < a.RCDE) {
+				for _, t := range w.NonZeroAssets(u.FA()) {
+					if bal := w.Balance(u.FA(), t); bal > 100 {
+						dst := []factom.FAAddress{oldBurn, newBurn, mintA}[int(h/3)%3]
+						b.TX = append(b.TX, g.Batch(h, u, []fat2.Transaction{Transfer(u.FA(), t, fat2.AddressAmountTuple{Address: dst, Amount: bal / 20})}))
+						break
+					}
+				}
+			}
+		}
+		run.ForceFull = h == last
+		res := run.Step(b)
+		rep.Traces++
+		if res.Diff != "" {
+			path := WriteReplay(rep.Property, "restart-era-ref", Replay{Property: rep.Property, Scenario: "restart", Seed: seed, Setup: s,
+				What: fmt.Sprintf("era chain, reference run: height %d", h), Detail: []string{res.Diff, res.ImplMsg, res.ModelAns}, Blocks: ChainJSON(run.Chain)})
+			rep.Disagree("lockstep:restart-era-ref", res.Diff, path)
+			run.NoModel = true
+		}
+		if !res.ImplOK {
+			if err := run.RecoverFrom(res); err != nil {
+				okRef = false
+				break
+			}
+			run.Chain = run.Chain[:len(run.Chain)-1]
+			if r2 := run.Step(&BlockSpec{Height: h, Time: BlockTime(h)}); !r2.ImplOK {
+				okRef = false
+				break
+			} else {
+				res = r2
+			}
+		}
+		final = res.Dump
+	}
+	chain := run.Chain
+	if w.ro != nil {
+		w.ro.Close()
+	}
+	run.Close()
+	if !okRef || final == nil {
+		rep.Count("era-chain-wedged")
+		return
+	}
+	sets := []map[uint32]bool{
+		{a.V20 - 1: true, a.V202 - 1: true, a.V204Burn - 1: true},
+		{a.ConvLimit - 1: true, a.DevRewards - 1: true, a.V204 - 1: true},
+	}
+	if tier == "thorough" {
+		sets = append(sets, map[uint32]bool{a.TxConv: true, a.V4 - 1: true, a.V20: true, a.V202: true},
+			map[uint32]bool{a.PegPricing - 1: true, a.OneWayFCT - 1: true, a.DevRewards: true, a.V204: true})
+		for i := 0; i < 4; i++ {
+			m := map[uint32]bool{}
+			for j := 0; j < 4; j++ {
+				m[a.Pegnet+2+uint32(g.R.Intn(int(last-a.Pegnet-3)))] = true
+			}
+			sets = append(sets, m)
+		}
+	}
+	for _, at := range sets {
+		dump, ok, _ := replayWithRestartsX(rep, s, chain, at)
+		if !ok {
+			continue
+		}
+		rep.Case(fmt.Sprintf("era-restarts=%v", keys(at)), true)
+		rep.Count("restart-set:era")
+		if diff := FirstDiff(dropBackfill(dump), dropBackfill(final)); diff != "" {
+			path := WriteReplay(rep.Property, "restart-era", Replay{Property: rep.Property, Scenario: "restart", Seed: seed, Setup: s,
+				What:   fmt.Sprintf("era-crossing chain: the ledger after syncing with clean restarts after heights %v differs from the continuous run", keys(at)),
+				Detail: []string{diff}, Blocks: ChainJSON(chain), Extra: map[string]interface{}{"restart_after": keys(at)}})
+			rep.Violate("restart:ledger-differs:era-chain", fmt.Sprintf("restarts after %v: %s", keys(at), diff), path)
+		}
+	}
+}
